@@ -19,6 +19,7 @@ import common
 import coreops
 import fbagen
 import lpcert
+import auxcorr
 import translate_status
 
 logging.disable(logging.CRITICAL)
@@ -239,8 +240,10 @@ def run(ctx):
                 print(f"VIOLATION property=C04 replay={ctx.replay}")
                 return 1
         return 0
-    common.proof_stage(ctx, "CobraModel.Props.C04", extra_scan=["CobraModel/Lemmas/LP.lean", "CobraModel/Model/LP.lean"],
+    common.proof_stage(ctx, "CobraModel.Props.C04", extra_scan=["CobraModel/Lemmas/LP.lean", "CobraModel/Model/LP.lean"] + auxcorr.SCAN,
                        regenerate=translate_status.regenerate)
+    # the problem slim_optimize hands to GLPK vs `AuxM.Net.fba` (finite, one-sided and infinite bounds, both directions, any linear objective)
+    auxcorr.stage(ctx, [("Model.slim_optimize", lambda make, spec, rng: auxcorr.pairs_fba(make()))], fbagen.gen_fba_spec, ctx.scale(80, 1500))
     rng = ctx.rng
     n = ctx.scale(600, 12000)
     split = {"optimal": 0, "infeasible": 0, "unbounded": 0}
